@@ -463,7 +463,9 @@ def probe_f27(c):
 def replay(c, rp):
     """re-run the deterministic parts (proofs, corpus, kernel enumeration, probes) and show the
     recorded failing inputs"""
-    c.prove()
+    from .translate import gen_update_bounds
+
+    c.prove(extra=gen_update_bounds(c))  # + update_bounds translated from the source on every run
     for f in rp.get("failures", []) + rp.get("correspondence_disagreements", []):
         print("recorded:", f["what"])
     run_corpus(c)
@@ -493,7 +495,9 @@ def run(c):
         "multi-pass runs; repaired as F47)",
         "scale_by_problem_size is off in the keep_soft / single-pass objective oracle",
     ]
-    c.prove()
+    from .translate import gen_update_bounds
+
+    c.prove(extra=gen_update_bounds(c))  # + update_bounds translated from the source on every run
     run_corpus(c)
     C4.stream_update_bounds(c)
     stream_main(c, c.n(200, 3000))
